@@ -65,6 +65,9 @@ pub struct Prediction {
     /// a directory that is part of the walk (not pruned as hidden) could not be opened / read:
     /// an I/O error occurred that check mode must report
     pub walk_fault_visible: bool,
+    /// getcwd() failed while the walked directory had to be the current one: the tool may go on
+    /// with "." or report an I/O error
+    pub cwd_fault: bool,
     pub oracle_unavailable: bool,
     /// the model cannot predict this invocation (e.g. DIR is not a directory): only "paths the
     /// model does not expect to change" are compared
@@ -154,6 +157,7 @@ pub fn predict(tree: &Tree, inv: &Inv, fired: &Fired, oracle: &mut Oracle) -> Pr
         walk_fault: !fired.walk_failed.is_empty(),
         write_faulted: fired.write_failed.iter().cloned().collect(),
         walk_fault_visible: false,
+        cwd_fault: false,
         oracle_unavailable: false,
         unmodelled: None,
         is_check: inv.is_check(),
@@ -306,6 +310,7 @@ pub fn predict(tree: &Tree, inv: &Inv, fired: &Fired, oracle: &mut Oracle) -> Pr
                 p.unmodelled = Some("DIR is not a directory");
                 return p;
             }
+            p.cwd_fault = fired.cwd_failed && dir.is_none();
             for d in &fired.walk_failed {
                 let pruned = if *d == dir_key {
                     false
@@ -354,7 +359,7 @@ pub fn predict(tree: &Tree, inv: &Inv, fired: &Fired, oracle: &mut Oracle) -> Pr
                             let e = if fired.write_failed.contains(&key) || safety {
                                 // (Torn also admits "untouched", so it covers a failed walk too)
                                 FileExpect::Torn { new }
-                            } else if below_failed_walk {
+                            } else if below_failed_walk || p.cwd_fault {
                                 FileExpect::UnchangedOrExactly(new)
                             } else {
                                 FileExpect::Exactly(new)
@@ -578,6 +583,20 @@ pub fn check(
             // `-i ... format-all --check`: whether the option parser rejects the combination
             // (usage error, exit 2, nothing processed) or runs it as a check is its business
             Shape::FormatAll { check: true, inplace: true, .. } if out.exit == Some(2) => {}
+            _ if check_mode && pred.cwd_fault => {
+                // an I/O error occurred (exit 1), unless the tool got along without asking where it
+                // is - then the ordinary answer
+                let normal = if pred.any_unformatted || io_error { 1 } else { 0 };
+                if out.exit != Some(1) && out.exit != Some(normal) {
+                    v.push(viol(&["C14"], "I14.3-exit", step, format!("check mode exit status {:?} after getcwd() failed, expected 1 (or {} if the current directory is not needed) (inputs: {})", out.exit, normal, summarise_inputs(pred))));
+                }
+            }
+            _ if write_mode && pred.cwd_fault => {
+                let incomplete = pred.files.iter().any(|(k, e)| matches!(e, FileExpect::UnchangedOrExactly(new) if !matches!(after.get(k).map(|s| &s.node), Some(Node::File(b)) if b.0 == *new)));
+                if (incomplete || io_error) && out.exit == Some(0) {
+                    v.push(viol(&["C15"], "I15.4-exit", step, format!("exit status 0 although getcwd() failed and eligible files were not formatted (inputs: {})", summarise_inputs(pred))));
+                }
+            }
             _ if check_mode => {
                 let want: Option<i32> = if pred.any_unformatted || io_error || pred.walk_fault_visible {
                     Some(1)
